@@ -2,6 +2,7 @@ package gosx
 
 import (
 	"fmt"
+	"sort"
 	"go/types"
 
 	"golang.org/x/tools/go/ssa"
@@ -13,6 +14,7 @@ type Value = value
 type Struct = structure
 type Tuple = tuple
 type Iface = iface
+type TargetPanic = targetPanic
 
 func Str(v Value) (string, bool) { s, ok := v.(string); return s, ok }
 
@@ -181,3 +183,20 @@ func (ex *Exec) LazyForced() []string { return append([]string(nil), ex.lazyForc
 
 // PanicOrigin names the function of the package under test in which the escaping panic was raised.
 func (ex *Exec) PanicOrigin() string { return ex.panicFrom }
+
+// MkStringMap builds a map[string]string value.
+func MkStringMap(m map[string]string) Value {
+	mv := newMapV(types.Typ[types.String])
+	keys := make([]string, 0, len(m))
+	for k := range m {
+		keys = append(keys, k)
+	}
+	sort.Strings(keys)
+	for _, k := range keys {
+		e := &mapEntry{k: k, v: m[k]}
+		mv.entries = append(mv.entries, e)
+		mv.conc[k] = e
+		mv.n++
+	}
+	return mv
+}
